@@ -75,6 +75,10 @@ func c19Doc(frames []string, where string) string {
 		fr = "<figure><img src=\"http://neutral.example/i.jpg\" width=\"400\" height=\"300\"><figcaption>" + t.W(3) + fr + "</figcaption></figure>"
 	case "layout":
 		fr = "<table><tr><td>" + pc() + fr + "</td></tr></table>"
+	case "picture":
+		fr = "<picture><source srcset=\"http://neutral.example/i.webp 1x\"><img src=\"http://neutral.example/i.jpg\" width=\"400\" height=\"300\">" + fr + "</picture>"
+	case "figure-picture":
+		fr = "<figure><picture><img src=\"http://neutral.example/i.jpg\" width=\"400\" height=\"300\"><span>" + fr + "</span></picture><figcaption>" + t.W(3) + "</figcaption></figure>"
 	}
 	return "<html><head><title>" + ora.DefaultTitle + "</title></head><body><div class=\"main\">" + pc() + pc() + fr + pc() + "</div></body></html>"
 }
@@ -102,6 +106,16 @@ func c19Enumerate(tier string, emit func(*eng.Case)) {
 	for _, f := range all {
 		emit(&eng.Case{Kind: "frame", URL: c19Page, HTML: c19Doc([]string{c19Frame(c19Tags[f.tag], src(f))}, "body"), P: map[string]string{"doc": desc(f)}})
 	}
+	// scheme-relative and absolute sources distilled without a page URL
+	for _, f := range all {
+		if f.sch == 3 {
+			continue
+		}
+		if tier != "thorough" && f.sch != 2 {
+			continue
+		}
+		emit(&eng.Case{Kind: "frame-nourl", URL: "", HTML: c19Doc([]string{c19Frame(c19Tags[f.tag], src(f))}, "body"), P: map[string]string{"doc": "no page URL: " + desc(f)}})
+	}
 	// frames inside tables, captions and layout tables; pairs of frames (thorough: all host forms; quick: path fixed)
 	for _, f := range all {
 		if f.path != 0 && tier != "thorough" {
@@ -110,7 +124,7 @@ func c19Enumerate(tier string, emit func(*eng.Case)) {
 		if f.path > 3 {
 			continue
 		}
-		for _, where := range []string{"table", "caption", "layout"} {
+		for _, where := range []string{"table", "caption", "layout", "picture", "figure-picture"} {
 			emit(&eng.Case{Kind: "frame-" + where, URL: c19Page, HTML: c19Doc([]string{c19Frame(c19Tags[f.tag], src(f))}, where), P: map[string]string{"doc": where + ": " + desc(f)}})
 		}
 	}
@@ -190,7 +204,10 @@ func c19Check(c *eng.Case) *eng.Outcome {
 	if a == nil {
 		return o
 	}
-	base, _ := nurl.Parse(c.URL)
+	var base *nurl.URL
+	if c.URL != "" {
+		base, _ = nurl.Parse(c.URL)
+	}
 	// source frames in document order
 	var frames []*html.Node
 	ora.Walk(a.Doc, func(n *html.Node) bool {
@@ -330,7 +347,7 @@ func init() {
 		ID:        "C19",
 		DesignRef: "§5 C19",
 		Rule: "source URLs = 4 schemes (http, https, scheme-relative, none) x 5 services (4 allow-listed + vimeo.com) x 18 host forms (exact, www, deep subdomain, suffix/prefix look-alikes, userinfo tricks, name in path/query/fragment, port, upper case, trailing dot) x 13 path/query shapes x 5 tag kinds (iframe, object data, object param, twitter blockquote, rendered-tweet iframe): full product in the article body; " +
-			"the frames with the 1 (quick) / 4 (thorough) leading path shapes also inside a data-table cell, a figure caption and a layout table; thorough adds pairs of frames. Oracle: every embed placeholder maps to a source frame whose reference-parsed host is an allow-listed host of its data-type or a subdomain, with data-id = last non-empty path segment (resp. data-tweet-id); no iframe/object outside placeholder, table or caption. " +
+			"the frames with the 1 (quick) / 4 (thorough) leading path shapes also inside a data-table cell, a figure caption, a layout table, a <picture> that has an <img>, and a figure>picture>span; every scheme-relative (thorough: also absolute) source once more without any page URL; thorough adds pairs of frames. Oracle: every embed placeholder maps to a source frame whose reference-parsed host is an allow-listed host of its data-type or a subdomain, with data-id = last non-empty path segment (resp. data-tweet-id); no iframe/object outside placeholder, table or caption. " +
 			"Non-trivial = a look-alike source is present or a placeholder was produced.",
 		Enumerate: c19Enumerate,
 		Check:     c19Check,
